@@ -84,6 +84,12 @@ pub struct Behavior {
     /// (path relative to the repository, mode): permission changes the helper makes before it exits
     #[serde(default, skip_serializing_if = "Vec::is_empty")]
     pub chmod: Vec<(String, u32)>,
+    /// what the second and later executions of the same file in the same directory (within one
+    /// case) write instead of `out` / `err`, when not empty
+    #[serde(default, skip_serializing_if = "Vec::is_empty")]
+    pub out_later: Vec<Step>,
+    #[serde(default, skip_serializing_if = "Vec::is_empty")]
+    pub err_later: Vec<Step>,
 }
 
 fn is_zero(x: &u64) -> bool {
@@ -203,10 +209,12 @@ static CASE_COUNTER: AtomicU64 = AtomicU64::new(0);
 pub fn free_port() -> u16 {
     // 20000-29999: below the kernel's ephemeral range (32768-60999), so that no outgoing
     // connection of anybody can sit on a port handed out here
+    // every harness process keeps to a window of 100 ports of its own (chosen by its pid), so
+    // that two checks running at the same time do not hand out the same port
     let base = 20000 + (std::process::id() % 100) * 100;
     for _ in 0..20000 {
         let k = PORT_COUNTER.fetch_add(1, Ordering::SeqCst);
-        let port = 20000 + ((base - 20000 + k) % 10000);
+        let port = base + (k % 100);
         let port = port as u16;
         if std::net::TcpListener::bind(("127.0.0.1", port)).is_ok() {
             return port;
@@ -356,6 +364,12 @@ impl Env {
             if b.linger_ms > 0 {
                 m.insert("linger_ms".into(), json!(b.linger_ms));
             }
+            if !b.out_later.is_empty() {
+                m.insert("out_later".into(), steps_json(&b.out_later));
+            }
+            if !b.err_later.is_empty() {
+                m.insert("err_later".into(), steps_json(&b.err_later));
+            }
             if b.pre_out_bytes > 0 {
                 m.insert("pre_out_bytes".into(), json!(b.pre_out_bytes));
             }
@@ -490,6 +504,21 @@ impl Env {
     /// Start monorail without waiting.
     pub fn mr_spawn(&mut self, args: &[&str], env: &[(&str, String)]) -> Running {
         let mut c = self.mr_command(args);
+        for (k, v) in env {
+            c.env(k, v);
+        }
+        self.invocations += 1;
+        self.spawn(c, None)
+    }
+
+    /// Like `mr_spawn`, but monorail is started by another program (`prefix[0] prefix[1..]
+    /// <monorail> -f <config> args`), e.g. under strace with a delay injected into a system call.
+    pub fn mr_spawn_under(&mut self, prefix: &[&str], args: &[&str], env: &[(&str, String)]) -> Running {
+        let mut c = self.base_command(Path::new(prefix[0]));
+        c.args(&prefix[1..]);
+        c.arg(monorail_bin());
+        c.arg("-f").arg(self.config_path());
+        c.args(args);
         for (k, v) in env {
             c.env(k, v);
         }
